@@ -599,6 +599,73 @@ def sec_lo_view(rep):
                     rep.check(f"C02/LO-view/{process}/{proj}/{kind}/nf={nf}", case, sy, kind="lemma")
 
 
+def sec_lo_view_heavyness(rep):
+    """Lemma, all heavynesses: the LO view of the kernels the REAL Combiner collects for
+    F_total / F_light / F_charm / F_bottom / F_top in the massless schemes is the parton model
+    restricted to the couplings selected by the heavyness: NC/EM tagged flavour h: x w_h (h +- hbar);
+    CC tagged flavour: the CKM block of that flavour among the active quarks."""
+    import yadism.coefficient_functions as cf
+
+    rep.under_contract(cf.Combiner.collect)
+    sy = H.Sy()
+    pre = [sy.x > 0, sy.x < 1, sy.Q2 > 0] + sy.mass_pre()
+    flav_q = {"charm": 4, "bottom": 5, "top": 6}
+    for process in H.PROCESSES:
+        for proj, pid in H.PROJECTILES.items():
+            if process != "CC" and proj in ("neutrino", "antineutrino"):
+                continue  # NC/EM weights are uninterpreted here: nothing depends on the projectile
+            for kind in ("F2", "FL", "F3", "g1", "g4"):
+                if process == "CC" and kind in ("g1", "gL", "g4"):
+                    continue
+                for nf in range(3, 7):
+                    for flavor in ("total", "light", "charm", "bottom", "top"):
+                        rep.cases += 1
+
+                        def case(sy, process=process, proj=proj, pid=pid, kind=kind, nf=nf, flavor=flavor):
+                            c = dict(process=process, projectile=proj, scheme="ZM-VFNS", nf_ff=3, nf=nf, kind=kind, flavor=flavor, pto=0, pto_evol=0, fonllparts="full")
+                            cfg = H.cell_configs(sy, c, cc_spec=(process == "CC"))
+                            ks, _ = H.collect(sy, cfg, kind, flavor, nf, what="collect")
+                            view = {}
+                            with rebind(*S_binds(sy)):
+                                for k in ks:
+                                    rsl = k.coeff[0]()
+                                    if rsl is None or rsl.loc is None:
+                                        continue
+                                    c0 = rsl.loc(sy.x, rsl.args["loc"])
+                                    for p_, w_ in k.partons.items():
+                                        view[p_] = view.get(p_, 0) + w_ * c0
+                            on = H.obs_name(kind, flavor)
+                            is_pv = on.is_parity_violating
+                            exp = {}
+                            if kind not in ("FL", "gL"):
+                                hq = flav_q.get(flavor)
+                                if hq is not None and hq > nf:
+                                    exp = {}  # the tagged quark is not active: nothing at LO
+                                elif process == "CC":
+                                    from spec import ew as _ew
+
+                                    V = [[sy.V[i][j] for j in range(3)] for i in range(3)]
+                                    if hq is not None:
+                                        keep = _ew.ckm_mask(H.QUARK_NAMES[hq - 1])
+                                        V = [[V[i][j] * keep[i][j] for j in range(3)] for i in range(3)]
+                                    exp = _ew.cc_parton_model(pid, V, H.QUARK_NAMES[:nf], nf, is_pv)
+                                else:
+                                    t = ("VA", "AV") if is_pv else ("VV", "AA")
+                                    for q in ([hq] if hq is not None else range(1, nf + 1)):
+                                        wq = H.WStub(sy, process, pid).get_weight(q, sy.Q2, t[0]) + H.WStub(sy, process, pid).get_weight(q, sy.Q2, t[1])
+                                        exp[q] = wq
+                                        exp[-q] = -wq if is_pv else wq
+                            return [(f"pid={k}", view.get(k, 0), exp.get(k, 0)) for k in sorted(set(view) | set(exp))] or [("empty", 0, 0)]
+
+                        rep.check(f"C02/LO-view-heavyness/{process}/{proj}/{kind}_{flavor}/nf={nf}", case, sy, pre, kind="lemma", max_paths=16)
+
+
+def S_binds(sy):
+    from . import sites as S
+
+    return S.stub_binds(sy)
+
+
 # ---------------------------------------------------------------------------------------
 class BasisStub:
     """eko BasisFunction contract stub (A-eko): value p_j(x) uninterpreted; support flags concrete."""
@@ -719,7 +786,7 @@ def run(rep, tier, seed, only=None):
         "gluon/singlet/valence weights specified as flavour averages (charge average), see DESIGN C02",
         "identity tolerance 1e-12 relative (concrete float sub-computations such as np.mean of charges)",
     )
-    secs = [("couplings", sec_couplings), ("ckm", sec_ckm), ("weights", sec_weights), ("lo", sec_lo), ("lo_view", sec_lo_view), ("grid", sec_grid_node)]
+    secs = [("couplings", sec_couplings), ("ckm", sec_ckm), ("weights", sec_weights), ("lo", sec_lo), ("lo_view", sec_lo_view), ("heavyness", sec_lo_view_heavyness), ("grid", sec_grid_node)]
     for nm, f in secs:
         if only and only not in nm:
             continue
